@@ -225,7 +225,11 @@ def generate(seed: int, tier: str = "quick") -> dict:
         program.append(o)
     order = ["initialize", "before_bar", "trigger", "on_bar", "after_bar", "notify"]
     program.sort(key=lambda o: (o["bar"], order.index(o["phase"])))
-    return {"property": ID, "seed": seed, "world": world, "program": program, "faults": []}
+    faults = []
+    if R.sub(seed, "token_style").random() < 0.15:
+        world["markets"][0]["token_style"] = "addressed_pool_plain_quote"
+        faults.append({"kind": "pool_tokens_with_addresses_quote_token_without"})
+    return {"property": ID, "seed": seed, "world": world, "program": program, "faults": faults}
 
 
 def _frac(rp):
@@ -413,8 +417,14 @@ def execute(scenario):
 
 def compare(res, a, b, scenario):
     ta, tb = a.markets["uni0"].pool_info.is_token0_quote, b.markets["uni0"].pool_info.is_token0_quote
-    if not (ta and not tb):
+    wa, wb = a.world["markets"][0], b.world["markets"][0]
+    if not (wa["quote"] == wa["token0"] and wb["quote"] == wb["token1"]):
         raise RuntimeError("mirror construction broken")
+    if not (ta and not tb):
+        # the pool was told which of its tokens is the quote token; what it made of that is the first orientation outcome
+        res.violate("c09.result_differs", "pool:is_token0_quote", a=bool(ta), b=bool(tb), want_a=True, want_b=False,
+                    token_style=wa.get("token_style"))
+        return
     if (a.crash is None) != (b.crash is None):
         res.violate("c09.crash_differs", "run", a=str(a.crash), b=str(b.crash))
         return
